@@ -3,6 +3,7 @@ CONSTANTS
   AllSiblings = TRUE
   EnterOnFocusIn = TRUE
   StaleTarget = FALSE
+  FastPath = FALSE
   Depth = 3
   Shapes = {"A"}
 SPECIFICATION Spec
